@@ -163,6 +163,9 @@ func (a *AddrManager) checkPassword(passphrase []byte) error {
 		}
 		return nil
 	} else {
+		if endsWithNUL(passphrase) {
+			return ErrInvalidPassphrase
+		}
 		if err := a.masterKeyPriv.DeriveKey(&passphrase); err != nil {
 			if err == snacl.ErrInvalidPassword {
 				return ErrInvalidPassphrase
@@ -190,10 +193,20 @@ func (a *AddrManager) safelyCheckPassword(privPass []byte) error {
 	return nil
 }
 
+// endsWithNUL reports whether a candidate passphrase ends with a zero byte. The key derivation
+// (scrypt, i.e. HMAC keyed with the passphrase) zero-pads short keys, so P and P followed by zero
+// bytes derive the same key; no legal passphrase contains a zero byte.
+func endsWithNUL(pass []byte) bool {
+	return len(pass) > 0 && pass[len(pass)-1] == 0
+}
+
 func unmarshalMasterPrivKey(masterPrivKey *snacl.SecretKey, privPass []byte, masterPrivParams []byte) error {
 	err := masterPrivKey.Unmarshal(masterPrivParams)
 	if err != nil {
 		return err
+	}
+	if endsWithNUL(privPass) {
+		return ErrInvalidPassphrase
 	}
 	err = masterPrivKey.DeriveKey(&privPass)
 	if err != nil {
